@@ -35,9 +35,21 @@ def address_of(M, o):
     return address, offset_addr
 
 
+def ls_syndrome(o, load):
+    """LSInstructionSyndrome() (B3.13.6, HSR.ISS<24:16> of a stage-2 Data Abort): ISV : SAS : SSE : 0 : SRT - valid for the single-register
+    byte / halfword / word loads and stores (incl. the unprivileged forms) that do not write back the base and do not use the PC as *destination* (a store of the PC is valid); other transfers leave it UNKNOWN here"""
+    size = o.get('size')
+    if size not in (1, 2, 4) or not isinstance(o.get('t'), int):
+        return None
+    if (load and o['t'] == 15) or o.get('wback'):
+        return 0
+    return (1 << 8) | ({1: 0, 2: 1, 4: 2}[size] << 6) | ((1 if o.get('signed') else 0) << 5) | o['t']
+
+
 def x_load(M, o):
     if o.get('unpriv') and M.is_hyp():
         raise Unpred('unprivileged load/store in Hyp mode')
+    M.ls_syndrome = ls_syndrome(o, True)
     size = o['size']
     address, offset_addr = address_of(M, o)
     priv = False if o.get('unpriv') else None
@@ -78,6 +90,7 @@ def x_load(M, o):
 
 
 def x_store(M, o):
+    M.ls_syndrome = ls_syndrome(o, False)
     if o.get('unpriv') and M.is_hyp():
         raise Unpred('unprivileged load/store in Hyp mode')
     size = o['size']
